@@ -52,8 +52,16 @@ fn my_slot() -> Arc<Slot> {
 pub fn beat() {
     let s = my_slot();
     if let Some(now) = clock_ns(s.clock) {
-        s.cpu_at_beat_ns.store(now, Ordering::Relaxed);
+        let prev = s.cpu_at_beat_ns.swap(now, Ordering::Relaxed);
+        MAX_GAP_NS.fetch_max(now.saturating_sub(prev), Ordering::Relaxed);
     }
+}
+
+static MAX_GAP_NS: AtomicU64 = AtomicU64::new(0);
+
+/// longest stretch of thread CPU time between two progress marks seen in this run (milliseconds)
+pub fn max_gap_ms() -> u64 {
+    MAX_GAP_NS.load(Ordering::Relaxed) / 1_000_000
 }
 
 /// what the calling thread is working on (shown in the violation if it never progresses again)
